@@ -23,6 +23,22 @@ def run(rep, f, c, rule='R-REPAIR'):
         return 0
     heads = loop_heads(b)
     n = 0
+    r = Resolver(b)
+    exp = {}
+    for l in range(b.arg_count + 1, len(b.locals)):
+        if b.single_def(l) is not None and b.locals[l]['ty'] == 'usize':
+            try:
+                exp[l] = r.local(l)
+            except Exception:
+                pass
+
+    def expand(e, depth=0):
+        # single-definition usize locals (`let len = buffer.len();`) stand for their definition
+        if not isinstance(e, tuple) or not e or depth > 8:
+            return e
+        if e[0] in ('init', 'loc') and e[1] in exp:
+            return expand(exp[e[1]], depth + 1)
+        return tuple(expand(x, depth + 1) if isinstance(x, tuple) else x for x in e)
     starts = [0] + list(heads)
     for h in starts:
         ps = region_paths(b, h) if h else [summarize(b, blks, end) for blks, end in enumerate_block_paths(b, 0, stop=heads)]
@@ -37,7 +53,7 @@ def run(rep, f, c, rule='R-REPAIR'):
                 if not (isinstance(ce, tuple) and ce[0] == 'bin' and ce[1] in MIRROR and isinstance(truth, bool)):
                     continue
                 try:
-                    d = lin_add(lin(ce[2]), lin(ce[3]), -1)
+                    d = lin_add(lin(expand(ce[2])), lin(expand(ce[3])), -1)
                 except Exception:
                     continue
                 lens = [(k, v) for k, v in d[0].items() if isinstance(k, tuple) and k and k[0] == 'len']
